@@ -79,6 +79,23 @@ def observe(net, c, names, extra=True, reverse=False, encode=None):
                 sources=src, targets=tgt))
         for meth in ("nsi_degree", "nsi_indegree", "nsi_outdegree", "nsi_local_clustering"):
             rec(meth + "_tw2", lambda meth=meth: getattr(net, meth)(typical_weight=2.0))
+        # link-weighted variants: weights are the cubes of Defs_Network!CubeRoot (1-based node numbers)
+        import numpy as np
+        n = net.N
+        i, j = np.indices((n, n)) + 1
+        root = ((i + 2 * j + (i * j) // 2) % 2) + 1 if net.directed else ((i * j + (i + j) // 2) % 2) + 1
+        W = (root ** 3) * np.asarray(net.adjacency)
+
+        def weighted(meth, **kw):
+            def run_w():
+                if "c" not in net.graph.es.attributes():
+                    net.set_link_attribute("c", W.astype(float))
+                return getattr(net, meth)("c", **kw)
+            return run_w
+        for meth in ("link_attribute", "outdegree", "indegree", "degree", "bildegree",
+                     "local_cyclemotif_clustering", "local_midmotif_clustering", "local_inmotif_clustering",
+                     "local_outmotif_clustering", "path_lengths"):
+            rec(meth + "(c)", weighted(meth))
     run()
     return m, x
 
